@@ -101,13 +101,17 @@ Fixpoint prun (st : pst) (evs : list pev) : pst * list (list pout) :=
     let '(st2, os) := prun st1 r in (st2, o :: os)
   end.
 
-(* the E3 view: outputs and the state after each step *)
+(* the E3 view: outputs and the state after each step; a resolution of a port whose receiver is
+   gone is not observable *)
+Definition visible (ab : list N) (o : pout) : bool :=
+  match o with OResolve p _ => negb (memN p ab) | _ => true end.
+
 Fixpoint prun_view (st : pst) (evs : list pev) : list (list pout * (N * list (N * N) * option N)) :=
   match evs with
   | [] => []
   | (ab, ok, i) :: r =>
     let '(st1, o) := pstep (fun p => memN p ab) ok st i in
-    (o, (p_tag st1, p_pend st1, p_cur st1)) :: prun_view st1 r
+    (filter (visible ab) o, (p_tag st1, p_pend st1, p_cur st1)) :: prun_view st1 r
   end.
 
 (* ghost bookkeeping over a history: the (tag, port) pairs inserted and the resolutions *)
@@ -664,3 +668,18 @@ Definition check_C20 (strict closed : bool) (expect_reply : list N) (quiescent :
   && check_calls strict (fun rid => memN rid expect_reply) o
   && forallb (fun sq : snap * bool => if snd sq then check_snap (fst sq) else true) (combine (o_snaps o) quiescent)
   && check_stale closed o.
+
+(* ---- the oracle for the unit-level runs of the real proxy handler (E3): tags handed out are
+   strictly increasing; a reply resolves the port inserted under its tag; at most once ---- *)
+Fixpoint sorted_ltb (l : list N) : bool :=
+  match l with
+  | [] => true
+  | x :: t => match t with [] => true | y :: _ => N.ltb x y && sorted_ltb t end
+  end.
+
+Definition check_C20_proxy (evs : list pev) (outs : list (list pout)) : bool :=
+  let ins := inserted evs outs in
+  let rs := resolved evs outs in
+  sorted_ltb (map fst ins)
+  && forallb (fun r => existsb (fun e => N.eqb (fst e) (fst r) && N.eqb (snd e) (snd r)) ins) rs
+  && nodupN (map fst rs).
